@@ -46,59 +46,131 @@ def mutators(ck, agg, qf):
     return n
 
 
+def _registry(out):
+    """unpacked-field symbols by name, collected from the heap and the trace of one path (so a copy of a copy can be followed)"""
+    reg = {}
+    seen = set()
+
+    def walk(x, d=0):
+        if d > 6 or id(x) in seen:
+            return
+        seen.add(id(x))
+        if isinstance(x, Sym):
+            if x.attrs.get("unpack"):
+                reg.setdefault(x.name, x)
+            return
+        if isinstance(x, (tuple, list)):
+            for y in x:
+                walk(y, d + 1)
+        elif isinstance(x, Seq):
+            for y in x.items:
+                walk(y, d + 1)
+    for cell in out.state.heap.values():
+        for v in (getattr(cell, "fields", None) or {}).values():
+            walk(v)
+    for ev in out.trace:
+        walk(ev.data)
+    return reg
+
+
+def _src(v, reg=None, depth=6):
+    """what a header field value is made of, through unpack(pack()) copies (of copies)"""
+    r = net.resolve_unpacked(v, depth=8)
+    d = set()
+    for x in net.base_deps(r):
+        if isinstance(x, tuple) and len(x) == 2 and isinstance(x[0], tuple) and isinstance(x[1], int):
+            x = x[0]                                     # one bit of an unpacked field
+        if reg is not None and depth and x in reg and norm(r) is not reg[x] and not (isinstance(norm(r), Sym) and norm(r).name == x):
+            d |= _src(reg[x], reg, depth - 1)
+        else:
+            d.add(x)
+    if not d and const_of(norm(r)) is not None:
+        return frozenset({("const", const_of(norm(r)))})
+    return frozenset(d)
+
+
 def enqueue_rules(ck, agg, qf):
     S = net.structs(ck.prog)
-    cls = S["FrameQueue"]
-    f = ck.prog.method(cls, "enqueue")
+    from .c06 import consts
+    K = consts(ck)
+    cf = net.cache_field(ck.prog)
     n = 0
-    # R12.4 capacity / R12.5 return value on a (max, len) grid
-    for mx in range(0, 4):
+    from ..interp import State
+    # every way a frame enters the storage list: the plain queue, and the reassembling queue for an unfragmented frame and for the
+    # LAST fragment that completes the cached message (which stores the *cache*, not the caller's frame)
+    scen = [("FrameQueue", None, "frame"), ("FrameQueueFrag", 65, "unfragmented frame"), ("FrameQueueFrag", K["MSG_FRAG_LAST"], "completing LAST fragment")]
+    for clsname, typ, what in scen:
+      cls = S[clsname]
+      f = ck.prog.method(cls, "enqueue")
+      nstored = 0
+      for mx in range(0, 4):
         for k in range(0, 4):
-            from ..interp import State
             st = State()
-            q = net.sym_queue(st, ck.prog, "FrameQueue", nframes=k, max_size=mx)
-            frame = net.sym_frame(st, ck.prog, "frame")
+            q = net.sym_queue(st, ck.prog, clsname, nframes=k, max_size=mx)
+            frame = net.sym_frame(st, ck.prog, "frame", {"message_type": typ} if typ is not None else None)
+            cache0 = st.heap[q.ident].fields.get(cf) if clsname == "FrameQueueFrag" else None
             outs, it = net.run(ck, f, cls, q, [frame], st)
             n += 1
             for out in outs:
                 if out.kind != "return":
-                    agg.add("R12.5", f, "enqueue() does not raise", False, "raises %s" % out.value.exc)
+                    agg.add("R12.5", f, "enqueue() does not raise", False, "%s: raises %s" % (what, out.value.exc))
                     continue
                 apps = [e for e in out.trace if e.kind == "append" and e.data[2] and e.data[2].endswith(qf)]
                 stored = bool(apps)
-                agg.add("R12.5", f, "enqueue() returns True exactly when the frame was stored", value_matches(out.value, stored), "max=%d len=%d: stored=%r but returns %r" % (mx, k, stored, out.value))
+                nstored += stored
+                reg = _registry(out) if stored else None
+                agg.add("R12.5", f, "enqueue() returns True exactly when the frame was stored", value_matches(out.value, stored), "%s, max=%d len=%d: stored=%r but returns %r" % (what, mx, k, stored, out.value))
                 if k >= mx:
                     agg.add("R12.4", f, "a full (or over-full) queue accepts nothing", not stored,
-                            "max_queue_size=%d with %d frames queued: the frame is stored (capacity guard only catches len == max)" % (mx, k))
+                            "%s, max_queue_size=%d with %d frames queued: the frame is stored (capacity guard only catches len == max)" % (what, mx, k))
                 if stored:
-                    agg.add("R12.4", f, "the queue never grows beyond max_queue_size", k + 1 <= mx, "max_queue_size=%d: %d frames after enqueue" % (mx, k + 1))
-                    # R12.2 private copy
+                    agg.add("R12.4", f, "the queue never grows beyond max_queue_size", k + 1 <= mx and len(apps) == 1, "%s, max_queue_size=%d: %d frames after enqueue" % (what, mx, k + len(apps)))
+                    # R12.2 private copy: nobody outside the storage list keeps a reference to the stored object
                     obj = apps[0].data[1]
                     news = [e.data[1].ident for e in out.trace if e.kind == "new"]
-                    ok = isinstance(obj, Ref) and obj.ident != frame.ident and obj.ident in news
-                    agg.add("R12.2", f, "the stored object is allocated by enqueue(), never the caller's frame", ok, "appends %r (caller's frame is %r)" % (obj, frame))
+                    cache1 = out.state.heap[q.ident].fields.get(cf) if cache0 is not None else None
+                    ok = isinstance(obj, Ref) and obj.ident != frame.ident and (obj.ident in news or (cache0 is not None and isinstance(cache1, Ref) and cache1.ident != obj.ident))
+                    agg.add("R12.2", f, "the stored object is private to the queue: not the caller's frame, not the live reassembly cache", ok, "%s: appends %r (caller's frame is %r, cache at exit %r)" % (what, obj, frame, cache1))
                     if ok:
                         hdr = out.state.heap[obj.ident].fields.get("header")
                         fh = out.state.heap[frame.ident].fields.get("header")
-                        agg.add("R12.2", f, "the stored frame has its own header object", isinstance(hdr, Ref) and isinstance(fh, Ref) and hdr.ident != fh.ident, "header %r shared with the caller" % (hdr,))
+                        ch = out.state.heap[cache1.ident].fields.get("header") if isinstance(cache1, Ref) else None
+                        agg.add("R12.2", f, "the stored frame has its own header object", isinstance(hdr, Ref) and isinstance(fh, Ref) and hdr.ident != fh.ident and not (isinstance(ch, Ref) and ch.ident == hdr.ident), "%s: header %r shared with the caller or the cache" % (what, hdr))
                         msg = out.state.heap[obj.ident].fields.get("message")
-                        okm = isinstance(msg, Bytes) and msg.origin is None
-                        agg.add("R12.2", f, "the stored message is a fresh immutable copy", okm, "message %r aliases the caller's buffer" % (msg,))
-                        # the header fields are those of the caller's frame (through pack/unpack)
-                        good = True
-                        if isinstance(hdr, Ref):
-                            for k2, fld in enumerate(net.HDR_FIELDS):
-                                v = out.state.heap[hdr.ident].fields.get(fld)
-                                src = getattr(v, "attrs", {}).get("unpack") if isinstance(v, Sym) else None
-                                good = good and src is not None
-                        agg.add("R12.2", f, "the copy is decoded from the caller's packed bytes", good, "stored header fields are not the unpacked image of frame.pack()")
+                        # (a handed-over reassembly cache owns its message already)
+                        okm = (isinstance(msg, Bytes) and msg.origin is None) or obj.ident not in news
+                        agg.add("R12.2", f, "the stored message is a fresh immutable copy", okm, "%s: message %r aliases the caller's buffer" % (what, msg))
+                        if typ != K["MSG_FRAG_LAST"]:
+                            # the header fields are those of the caller's frame (through pack/unpack)
+                            good = True
+                            if isinstance(hdr, Ref):
+                                for k2, fld in enumerate(net.HDR_FIELDS):
+                                    v = out.state.heap[hdr.ident].fields.get(fld)
+                                    good = good and _src(v, reg) == _src(st.heap[st.heap[frame.ident].fields["header"].ident].fields[fld])
+                            agg.add("R12.2", f, "the copy carries the caller's header fields", good, "%s: stored header fields are not those of the caller's frame" % what)
                     # FIFO: appended at the tail
                     lst = out.state.heap[q.ident].fields[qf]
                     items = out.state.heap[lst.ident].items
-                    agg.add("R12.1", f, "new frames are stored at the tail", items and isinstance(items[-1], Ref) and items[-1].ident == obj.ident and len(items) == k + 1, "storage after enqueue: %r" % (items,))
+                    agg.add("R12.1", f, "new frames are stored at the tail", items and isinstance(items[-1], Ref) and items[-1].ident == obj.ident and len(items) == k + 1, "%s: storage after enqueue: %r" % (what, items))
+                    # R12.3 (generic, by value): before the append, every stored frame was compared with what is being stored and
+                    # found different in origin, frame id or type - whatever code path the append is on
+                    hdr = out.state.heap[obj.ident].fields.get("header") if isinstance(obj, Ref) else None
+                    if isinstance(hdr, Ref) and k:
+                        want = {fl: _src(out.state.heap[hdr.ident].fields.get(fl), reg) for fl in ("from_node", "frame_id", "message_type")}
+                        differs = set()
+                        for pol, a, b, ev, val in net.eq_atoms(out, None):
+                            if ev.seq > apps[0].seq or pol is not False:
+                                continue
+                            for (x, xv), (y, yv) in (((a, val[0]), (b, val[1])), ((b, val[1]), (a, val[0]))):
+                                if x and isinstance(x[0], str) and x[0].startswith("queue[") and x[0].endswith(".header") and x[1] in want and want[x[1]] and _src(yv, reg) == want[x[1]]:
+                                    differs.add(x[0])
+                        miss = [i for i in range(k) if "queue[%d].header" % i not in differs]
+                        agg.add("R12.3", f, "whatever is stored was first found to differ from every stored frame in origin, frame id or type", not miss,
+                                "%s with %d frame(s) queued: the stored frame (origin %s, id %s, type %s) is appended without a failed comparison against stored frame(s) %r - a duplicate is queued twice" % (
+                                    what, k, *[sorted(want[x]) for x in ("from_node", "frame_id", "message_type")], miss), apps[0].node)
                 # R12.3 duplicate atoms
                 atoms = net.eq_atoms(out, None)
-                if k and k < mx:
+                if k and k < mx and typ is None:
                     per_elem = {}
                     for pol, a, b, ev, val in atoms:
                         for x, y in ((a, b), (b, a)):
@@ -116,6 +188,7 @@ def enqueue_rules(ck, agg, qf):
                         for d in per_elem.values():
                             used |= set(d)
                         agg.add("R12.3", f, "duplicate test compares exactly origin, frame id and type", used <= {"from_node", "frame_id", "message_type"}, "fields compared: %r" % (sorted(used),))
+      agg.add("R12.4", f, "some path stores the %s (anchor)" % what, nstored > 0, "no scenario on the capacity grid stores the %s" % what)
     return n
 
 
@@ -160,7 +233,7 @@ def move_ctor(ck, agg, qf):
     n = 0
     from ..interp import State
     for dst in ("FrameQueue", "FrameQueueFrag"):
-      for nfr, mx in ((3, 2), (8, 10)):
+      for nfr, mx in ((3, 2), (8, 10), (0, 3), (1, 9)):
         for src in ("FrameQueue", "FrameQueueFrag"):
             st = State()
             q = net.sym_queue(st, ck.prog, src, nframes=nfr, max_size=mx, label="queue")
@@ -203,10 +276,11 @@ def move_ctor(ck, agg, qf):
     mix = ck.prog.cls("network.mixins", "NetworkMixin")
     fs = ck.prog.method(mix, "fragmentation", "set")
     for cur in (True, False):
+      for nfr in (2, 0):
         for new in (True, False, 1, 0):
             st = State()
             node = st.alloc("obj", cls=mix, label="node")
-            q = net.sym_queue(st, ck.prog, "FrameQueueFrag" if cur else "FrameQueue", nframes=2, max_size=4)
+            q = net.sym_queue(st, ck.prog, "FrameQueueFrag" if cur else "FrameQueue", nframes=nfr, max_size=4)
             lst0 = list(st.heap[st.heap[q.ident].fields[qf].ident].items)
             cell = st.heap[node.ident]
             cell.fields["queue"] = q
